@@ -206,3 +206,22 @@ Qed.
 (* an LRU already in the trie: not one block is added (with C19_readd_no_growth on the model) *)
 Print Assumptions C19_source_add_lru.
 Print Assumptions C19_source_add_page.
+
+(* ---- the figures of LRUTrie.metrics(), translated (GenTrieM.v: the integer entries of the dict; the floating-point averages are
+   sliced away by the translator, which checks that no integer entry depends on them).  For EVERY history, on the trie file of the
+   state reached, the translated metrics() returns the model's figures and changes no byte; its page figures are therefore the
+   SPECIFICATION's page count and crawled count. *)
+From Traph Require GenTrieM GenTrieMFacts.
+Theorem C19_source_metrics : forall d rs h, wf_rules rs -> Forall wf_op h ->
+  let s := run d rs h in let a := srun d rs h in
+  forall sg, GenTrieFacts.trep (TraceDefs.files_of s) sg ->
+  exists sg' l, GenTrieM.py_trie_metrics sg = Some (sg', l) /\ GenStorage.pm_array sg' = GenStorage.pm_array sg /\
+    map snd l = [m_nodes (metrics s); N.of_nat (length (a_pages a)); count_if (fun x => snd x) (a_pages a); m_tail (metrics s);
+                 m_fragmented (metrics s); m_stems (metrics s); m_max_tail (metrics s)].
+Proof.
+  intros d rs h H1 H2 s a sg Hrep.
+  destruct (GenTrieMFacts.py_trie_metrics_spec d rs h H2 sg Hrep) as (sg' & l & E & _ & Harr & Hl).
+  exists sg', l. split; [exact E|]. split; [exact Harr|].
+  destruct (C19_metrics_pages d rs h H1 H2) as [Hp Hc]. fold s a in Hp, Hc, Hl. rewrite Hp, Hc in Hl. exact Hl.
+Qed.
+Print Assumptions C19_source_metrics.
